@@ -1211,17 +1211,23 @@ fn norm_use_node(n: &Node, out: &mut Vec<NTok>) {
 ///
 /// Rules (each is a documented cosmetic rewrite of swayfmt, applied to BOTH sides):
 /// * N1 trailing comma before a closing delimiter is dropped — except the comma of a 1-tuple
-///   `(a,)`. swayfmt tests: items/item_struct/tests.rs `struct_trailing_comma…`, item_use tests
-///   `…_with_trailing_comma`, items/item_enum/tests.rs, utils/language/expr/tests.rs (multi-line
-///   calls/arrays/struct literals get a trailing comma, single-line ones lose it).
-/// * N2 a comma after the last `where` bound (before the `{` body or `;`) — swayfmt
-///   utils/language/where_clause.rs always writes `T: Bound,\n` per bound (tests in
-///   items/item_fn/tests.rs `fn_with_where…`, item_trait tests).
-/// * N3 inside a `use` statement: order of the elements of a `{…}` group (item_use tests
-///   `single_line_sort`, `multiline…out_of_order`) and braces of a single-element group
-///   (`single_import_without_braces`).
-/// * N4 parentheses around a single type: the parser itself drops them (`sway-parse/src/ty/mod.rs`:
-///   "only patterns of (ty) are parsed as ty"), so the formatter cannot print them.
+///   `(a,)` (argument / parameter lists are recognised by the token before the `(`). Documented by
+///   swayfmt tests: items/item_use/tests.rs `multiline_with_trailing_comma`,
+///   `single_line_sort_with_trailing_comma` (added when multi-line, removed when single-line);
+///   items/item_struct/tests.rs `struct_with_where_clause` and tests/mod.rs (`struct_...` cases:
+///   last field gets a comma); utils/language/expr/tests.rs `multiline_tuple` (multi-line
+///   collections end with a comma).
+/// * N2 a comma after the last `where` bound (before the `{` body or `;`): swayfmt
+///   utils/language/where_clause.rs writes `bound,\n` for every bound including
+///   `final_value_opt`; documented by items/item_struct/tests.rs `struct_with_where_clause`.
+/// * N3 inside a `use` statement: order of the elements of a `{…}` group (items/item_use/tests.rs
+///   `single_line_sort`, `multiline` with the `out_of_order` input) and braces of a single-element
+///   group (`single_import_without_braces`, `single_import_multiline_with_braces`).
+/// * N4 parentheses around a single type: the parser itself drops them (sway-parse/src/ty/mod.rs:
+///   "only patterns of (ty) are parsed as ty"), so the formatter cannot print them. Only applied
+///   to a paren group without top-level comma whose content looks like a type (identifiers, paths,
+///   balanced `<…>`, nested tuple/array types) and that stands in a type position (after `->`, `:`,
+///   `<`, `,`, `as`, `for`, `type X =`; before `,`, `>`, `{`, `;`, `=`, `where`, `for` or the end).
 fn norm_stream(items: &[Node], enclosing: Option<char>, arg_list: bool, out: &mut Vec<NTok>) {
     let n = items.len();
     let mut in_where = false;
